@@ -221,15 +221,15 @@ def clause_by_state(ctx, rule):
     P = f.params[-1]
     want = {'SUCCESS': 'self._on_success', 'ERROR': 'self._on_error',
             'SKIPPED': 'self._on_skip'}
-    uses = [n for n in cfg.nodes if n.kind == 'test' and any(
-        isinstance(x, ast.Call) and U.call_name(x) == 'get_publish' and
-        isinstance(x.func.value, ast.Name) for x in ast.walk(n.ast))]
-    if not uses:
-        raise AnalysisError('get_publish: test of the chosen clause not '
-                            'found')
-    var = [x.func.value.id for x in ast.walk(uses[0].ast)
-           if isinstance(x, ast.Call) and U.call_name(x) == 'get_publish' and
-           isinstance(x.func.value, ast.Name)][0]
+    names = sorted({x.func.value.id for x in own_nodes(f.node)
+                    if isinstance(x, ast.Call) and
+                    U.call_name(x) == 'get_publish' and
+                    isinstance(x.func, ast.Attribute) and
+                    isinstance(x.func.value, ast.Name)})
+    if len(names) != 1:
+        raise AnalysisError('get_publish: the local holding the chosen '
+                            'clause not identified (%s)' % names)
+    var = names[0]
     got = {}
     for n in cfg.nodes:
         if n.kind == 'stmt' and isinstance(n.ast, ast.Assign) and \
